@@ -116,6 +116,62 @@ func forgedJoins(a, b string) []string {
 	return []string{a + "\";\"" + b, a + ";" + b, a + "\";" + b, a + ";\"" + b, a + "\\\";\\\"" + b}
 }
 
+// longMembers: collections of 17 and 33 members that agree on a long run of leading members and differ only in
+// the last one or in one far from the start, so that hashing, equality or ordering that looks at a bounded number
+// of members cannot tell them apart (the counterpart of longStrings for collections).
+func longMembers(ty cty.Type) []cty.Value {
+	var out []cty.Value
+	seq := func(n int, mk func(i int) cty.Value, change int, to cty.Value) []cty.Value {
+		vs := make([]cty.Value, n)
+		for i := range vs {
+			vs[i] = mk(i)
+		}
+		if change >= 0 {
+			vs[change] = to
+		}
+		return vs
+	}
+	num := func(i int) cty.Value { return cty.NumberIntVal(int64(i)) }
+	str := func(i int) cty.Value { return cty.StringVal(fmt.Sprintf("s%02d", i)) }
+	switch {
+	case ty.Equals(cty.List(cty.Number)):
+		for _, n := range []int{17, 33} {
+			out = append(out, cty.ListVal(seq(n, num, -1, cty.NilVal)), cty.ListVal(seq(n, num, n-1, num(99))), cty.ListVal(seq(n, num, 16, num(98))))
+		}
+	case ty.Equals(cty.List(cty.String)):
+		for _, n := range []int{17, 33} {
+			out = append(out, cty.ListVal(seq(n, str, -1, cty.NilVal)), cty.ListVal(seq(n, str, n-1, str(99))), cty.ListVal(seq(n, str, 16, str(98))))
+		}
+	case ty.Equals(cty.Set(cty.Number)):
+		for _, n := range []int{17, 33} {
+			out = append(out, cty.SetVal(seq(n, num, -1, cty.NilVal)), cty.SetVal(seq(n, num, n-1, num(99))), cty.SetVal(seq(n, num, 16, num(98))))
+		}
+	case ty.Equals(cty.Map(cty.Number)), ty.Equals(cty.Map(cty.String)):
+		mk := num
+		if ty.ElementType() == cty.String {
+			mk = str
+		}
+		for _, n := range []int{17, 33} {
+			for _, ch := range []int{-1, n - 1, 16} {
+				m := map[string]cty.Value{}
+				for i, v := range seq(n, mk, ch, mk(99)) {
+					m[fmt.Sprintf("k%02d", i)] = v
+				}
+				out = append(out, cty.MapVal(m))
+			}
+		}
+	case ty.Equals(cty.List(cty.List(cty.String))):
+		for _, n := range []int{17, 33} {
+			out = append(out, cty.ListVal([]cty.Value{cty.ListVal(seq(n, str, -1, cty.NilVal))}), cty.ListVal([]cty.Value{cty.ListVal(seq(n, str, n-1, str(99)))}))
+		}
+	case ty.Equals(cty.Set(cty.List(cty.Number))):
+		a, b, d := cty.ListVal(seq(17, num, -1, cty.NilVal)), cty.ListVal(seq(17, num, 16, num(99))), cty.ListVal(seq(33, num, 32, num(99)))
+		e := cty.ListVal(seq(33, num, -1, cty.NilVal))
+		out = append(out, cty.SetVal([]cty.Value{a, b}), cty.SetVal([]cty.Value{b, a}), cty.SetVal([]cty.Value{d, e}), cty.SetVal([]cty.Value{e, d}))
+	}
+	return out
+}
+
 func specialStrings() []cty.Value {
 	return append(shortStrings(), longStrings()...)
 }
@@ -132,6 +188,8 @@ func buildPool(r *core.Rand, p poolDef, size int) []cty.Value {
 	ty := p.ty
 	add := func(v cty.Value) { out = append(out, v) }
 	add(cty.NullVal(ty))
+	// long members first, so that the quick pool size keeps them (see longMembers)
+	out = append(out, longMembers(ty)...)
 	switch {
 	case ty == cty.Number:
 		out = append(out, nums...)
